@@ -1114,7 +1114,8 @@ class SegmentationImage:
         for i in range(border_mask.ndim):
             border_mask = border_mask.swapaxes(0, i)
             border_mask[:border_width] = True
-            border_mask[-border_width:] = True
+            # note that [-0:] would select (and mask) the entire axis
+            border_mask[border_mask.shape[0] - border_width:] = True
             border_mask = border_mask.swapaxes(0, i)
 
         self.remove_masked_labels(border_mask,
